@@ -12,14 +12,14 @@ ASSUMPTIONS = ["A-ATOM: a context switch happens between source lines, never ins
                "two locks and _active_queue) are replayed through the model; a rejected access is a broken correspondence",
                "CPython bytecode-level and free-threaded interleavings are outside the property's quantifier and outside the claim"]
 RULE = ("real threads (2..3 submitters x 3..4 submissions with sources owned by the outermost level / by a level registered later / by none, priorities 0/1; the loop thread "
-        "dispatching, opening up to 3 nested levels, closing them, registering a source) under a controlled line-level scheduler: random schedules and PCT-style priority "
-        "schedules with 3 change points; oracle on the implementation's own record: no duplicate dispatch, every submission placed exactly once, per-thread FIFO within a level "
+        "dispatching, opening up to 3 nested levels, closing them, registering a source) under a controlled line-level scheduler: random schedules, PCT-style priority "
+        "schedules with 3 change points, and pause schedules (one submitter suspended at a chosen line for a long window); oracle on the implementation's own record: no duplicate dispatch, every submission placed exactly once, per-thread FIFO within a level "
         "and priority, routing of signals whose owner level stays open; non-trivial = a schedule in which a nested level was opened while submissions were in flight")
 
 
 def generate(rnd, tier):
     n = 1500 if tier == "quick" else 20000
-    return [{"op": "threads", "seed": rnd.randrange(10 ** 9), "nsub": rnd.choice([2, 2, 3]), "per": rnd.choice([3, 4, 5]), "policy": rnd.choice(["random", "random", "pct"])} for _ in range(n)]
+    return [{"op": "threads", "seed": rnd.randrange(10 ** 9), "nsub": rnd.choice([2, 2, 3]), "per": rnd.choice([3, 4, 5]), "policy": rnd.choice(["random", "pause", "pause", "pct"])} for _ in range(n)]
 
 
 def run_impl(case):
@@ -58,10 +58,11 @@ def monitor(case, obs):
     held = {}            # tid -> levels snapshot while the submitter holds the main lock
     lock_levels = {}
     open_during = {}     # sid -> set of levels open during the whole submission
-    cur = {}
+    cur = {}; src_at_submit = {}; sources_at_put = {}
     for i, e in enumerate(evs):
         t, k = e[0], e[1]
-        if k == "submit": cur[t] = e[2]; open_during[e[2]] = set(levels)
+        if k == "submit":
+            cur[t] = e[2]; open_during[e[2]] = set(levels); src_at_submit[e[2]] = {l: set(v) for l, v in sources.items()}
         if k == "lv_append": levels.append(e[2]); sources.setdefault(e[2], set())
         if k == "lv_pop":
             levels.remove(e[2]); closed_at[e[2]] = i
@@ -79,11 +80,20 @@ def monitor(case, obs):
         if k == "put":
             sid = e[3]
             if sid in placed: return "signal %d was put into a queue twice" % sid
-            placed[sid] = (e[2], e[5], i)
+            placed[sid] = (e[2], e[5], i); sources_at_put[sid] = {l: set(v) for l, v in sources.items()}
         if k == "submitted": cur.pop(t, None)
     for sid, s in subs.items():
         if any(e[1] == "submitted" and e[2] == sid for e in evs) and sid not in placed:
             return "the submission of signal %d completed but it was put into no queue" % sid
+    # whatever path the code takes: a signal whose source was registered (before the submission began) with a level that stays open during the whole
+    # submission must be put into a level that owns its source
+    for sid, (q, order, i) in placed.items():
+        if sid not in subs: continue
+        src = subs[sid][1]
+        if src is None: continue
+        if any(src in src_at_submit.get(sid, {}).get(l, ()) for l in open_during.get(sid, ())):
+            if src not in sources_at_put.get(sid, {}).get(q, ()):
+                return "signal %d: its source %r belongs to a level that stays open, but it was put into level %d, which does not own it" % (sid, src, q)
     # routing: the levels are asked innermost first; the signal goes into the first one that owns its source (as of the moment it was asked, under the lock);
     # a level that stays open cannot be skipped
     for sid, (q, order, i) in placed.items():
